@@ -11,7 +11,7 @@ pub fn prop() -> Prop {
     Prop {
         id: "C14",
         level: "exploration",
-        rule: "clusters of 13..=200 points (hook cluster_from_points) from 14 families (helices with special pitch incl. 0 / subnormal / 1e-17..1e2, exactly collinear rays / x-axis / shared z, collinear perturbed by 1e-18..1e-2, repeated point, two distinct points, equal radii, vertical line, dyadic grid, circle through the origin, random cloud, physical tracks, with duplicates) -> Track::try_from; the same families mixed into point sets of 0..=2000 points -> cluster_spacepoints -> Track::try_from on every cluster (hook-free); track sets of size 0..=8 from fitted tracks and from track_from_helix with ties (identical tracks, equal beamline z, equal radius sums) -> find_vertices. Panic monitor in both build profiles; returned helix parameters, t_inner/t_outer, t_i and vertex coordinates checked for finiteness / range. Non-trivial = distinct clusters that produced a Track + distinct track sets that produced a primary vertex. Also: 40 000 / 800 000 numerically collinear inclined rays; vertical lines perturbed by 1e-16..1e-6 m; inner clump plus one far hit; equal radii with two or three distinct points; two or three distinct radii; tracks failing the vertexing pre-filters; helices whose axis is exactly the beamline with flat pitch. Round 4: 2..4 beamline clusters tied in multiplicity whose tracks meet the beamline at exactly / within 1e-10..5e-17 m / within 1.5 cm of the same z; helices in negative-radius form (same curve) near the beamline among ordinary tracks. Round 5: curlers including their two extreme points, exactly half a turn apart. Round 6: helices of radius exactly 0 / +-0.0 / subnormal / tiny, alone in the winning cluster and mixed. Round 7: hits whose radii lie 1e-16 m apart in chains with unrelated z. Round 8: track stubs entirely inside the inner cathode radius or entirely beyond the wires.",
+        rule: "clusters of 13..=200 points (hook cluster_from_points) from 14 families (helices with special pitch incl. 0 / subnormal / 1e-17..1e2, exactly collinear rays / x-axis / shared z, collinear perturbed by 1e-18..1e-2, repeated point, two distinct points, equal radii, vertical line, dyadic grid, circle through the origin, random cloud, physical tracks, with duplicates) -> Track::try_from; the same families mixed into point sets of 0..=2000 points -> cluster_spacepoints -> Track::try_from on every cluster (hook-free); track sets of size 0..=8 from fitted tracks and from track_from_helix with ties (identical tracks, equal beamline z, equal radius sums) -> find_vertices. Panic monitor in both build profiles; returned helix parameters, t_inner/t_outer, t_i and vertex coordinates checked for finiteness / range. Non-trivial = distinct clusters that produced a Track + distinct track sets that produced a primary vertex. Also: 40 000 / 800 000 numerically collinear inclined rays; vertical lines perturbed by 1e-16..1e-6 m; inner clump plus one far hit; equal radii with two or three distinct points; two or three distinct radii; tracks failing the vertexing pre-filters; helices whose axis is exactly the beamline with flat pitch. Round 4: 2..4 beamline clusters tied in multiplicity whose tracks meet the beamline at exactly / within 1e-10..5e-17 m / within 1.5 cm of the same z; helices in negative-radius form (same curve) near the beamline among ordinary tracks. Round 5: curlers including their two extreme points, exactly half a turn apart. Round 6: helices of radius exactly 0 / +-0.0 / subnormal / tiny, alone in the winning cluster and mixed. Round 7: hits whose radii lie 1e-16 m apart in chains with unrelated z. Round 10: pitches between the subnormals and 1e-17 m (around sqrt / cbrt of f64::MIN_POSITIVE), such helices also placed at z = 0 where their z spread is representable. Round 8: track stubs entirely inside the inner cathode radius or entirely beyond the wires.",
         assumptions: &["hooks cluster_from_points / track_from_helix / helix_params only build the private structs from their fields and read them back"],
         profiles: both,
         shards: shards16,
